@@ -64,8 +64,7 @@ def run(ctx):
         floors = [x for x in walk(f) if x.get('kind') == 'CallExpr' and callee(x) and callee(x)[0] == 'fn' and
                   callee(x)[1].get('name') == 'floor']
         truncs = [x for x in walk(f) if x.get('kind') == 'CallExpr' and callee(x) and callee(x)[0] == 'fn' and
-                  callee(x)[1].get('name') in ('time_point_cast', 'duration_cast') and 'seconds' in (dtype(x) or qtype(x)) + F.keys.key(x)
-                  and not re.search(r'ratio<1, ?\d', dtype(x) or qtype(x))]
+                  callee(x)[1].get('name') == 'time_point_cast']
         if floors and not truncs:
             ctx.ok('C18-floor', '%s floors with std::chrono::floor' % label, f, 'floor')
             continue
@@ -134,21 +133,23 @@ def run(ctx):
             why = 'expected a division by %d and one decrement (found %d/%d)' % (num, len(divs), len(decs))
             if ok:
                 ck = F.keys.key(kids(decs[0])[0])
-                fs = F.facts_at_ast(decs[0]) or frozenset()
-                isneg = ('<', ck, 'n:0') in fs
-                notmult = any(op == '!=' and set((a, b)) == set(('(%s %% n:%d)' % (ck, num), 'n:0')) for (op, a, b) in fs)
-                if not (isneg and notmult):
-                    ok, why = False, 'the decrement is not made exactly for a negative count that is not a multiple of %d' % num
-                else:
-                    # paths to a division that do not lead to the decrement: count >= 0 or a multiple
-                    dn = g.nodes_for(decs[0])
-                    for d_ in divs:
-                        for n in g.nodes_for(d_):
-                            if _reach_from(g, [n], dn):
-                                continue
-                            fs2 = F.facts_at(n)
-                            if ('<', ck, 'n:0') in fs2 and any(op == '!=' and '(%s %% n:%d)' % (ck, num) in (a, b) for (op, a, b) in fs2):
-                                ok, why = False, 'a negative count that is not a multiple of %d is divided without the decrement' % num
+                dn = g.nodes_for(decs[0])
+                modk = '(%s %% n:%d)' % (ck, num)
+                found_pre = False
+                for d_ in divs:
+                    for n in g.nodes_for(d_):
+                        fs2 = F.facts_at(n)
+                        neg = ('<', ck, 'n:0') in fs2 or ('<=', ck, 'n:0') in fs2
+                        nonmult = any(op == '!=' and set((a, b)) == set((modk, 'n:0')) for (op, a, b) in fs2)
+                        if _reach_from(g, [n], dn):
+                            # the division that is followed by the decrement: made for a negative non-multiple only
+                            found_pre = True
+                            if not (neg and nonmult):
+                                ok, why = False, 'the decrement is not made exactly for a negative count that is not a multiple of %d' % num
+                        elif neg and nonmult:
+                            ok, why = False, 'a negative count that is not a multiple of %d is divided without the decrement' % num
+                if not found_pre:
+                    ok, why = False, 'the decrement does not follow a division'
             ctx.check(ok, 'C18-floor', '%s: division corrected to floor exactly for a negative non-multiple' % label, f,
                       'join_seconds for a period of %d s does not floor (%s): instants before the epoch are attributed to the '
                       'following period' % (num, why), construct='floor:join:%s' % t[:60], detail='count / %d, -1 iff count < 0 and count %% %d != 0' % (num, num))
@@ -156,7 +157,7 @@ def run(ctx):
         for x in walk(f):
             if x.get('kind') == 'CXXStaticCastExpr' and int_type(dtype(x) or qtype(x)):
                 it = int_type(dtype(x) or qtype(x))
-                src = int_type(dtype(kids(x)[-1]) or '')
+                src = int_type(dtype(peel(kids(x)[-1])) or '')
                 if src and src[0] <= it[0] and src[1] == it[1]:
                     continue            # not narrowing
                 lo, hi = type_range(it)
@@ -179,10 +180,10 @@ def run(ctx):
             if outside and F.keys.key(kids(rn.ast)[0]) != 'n:0':
                 ctx.bad('C18-narrow', '%s: out-of-range count answers false' % label, rn.ast,
                         'a count outside the target representation does not make join_seconds return false', construct='narrow:ret:%s' % t[:60])
-    ctx.check(n_coarse >= 3 and n_narrow >= 4, 'C18-narrow', 'witness covers coarser periods and narrower representations', None,
+    ctx.check(n_coarse >= 3 and n_narrow >= 3, 'C18-narrow', 'witness covers coarser periods and narrower representations', None,
               'found %d coarser-than-second and %d narrowing instantiations' % (n_coarse, n_narrow), construct='narrow:count')
     ctx.minimum('C18-floor', 6)
-    ctx.minimum('C18-narrow', 5)
+    ctx.minimum('C18-narrow', 4)
 
     # ---- C18-route
     n_route = 0
@@ -195,10 +196,18 @@ def run(ctx):
                 not any(a.startswith('consttime_point<seconds>') or a == 'consttime_point<seconds>&' for a in targs) and \
                 f.get('_p', {}).get('kind') == 'FunctionTemplateDecl' or (nm in ('cctz::time_zone::lookup', 'cctz::convert', 'cctz::format') and
                                                                            _is_template_inst(f)):
-            calls = [callee(x)[1].get('name') for x in walk(f) if x.get('kind') == 'CallExpr' and callee(x) and callee(x)[0] == 'fn']
-            casts = [c for c in calls if c in ('time_point_cast', 'duration_cast', 'floor', 'ceil', 'round')]
+            callx = [x for x in walk(f) if x.get('kind') in ('CallExpr', 'CXXMemberCallExpr') and callee(x)]
+            calls = [callee(x)[1].get('name') if callee(x)[0] == 'fn' else callee(x)[1] for x in callx]
+            casts = []
+            for x in callx:
+                if callee(x)[0] != 'fn' or callee(x)[1].get('name') not in ('time_point_cast', 'duration_cast', 'floor', 'ceil', 'round'):
+                    continue
+                r_ = _ratio(u.expand_type(dtype(x) or qtype(x)).replace(' ', ''))
+                if r_ is None or r_[1] == 1:
+                    casts.append(callee(x)[1].get('name'))      # a conversion to whole seconds or coarser
             n_route += 1
-            ctx.check('split_seconds' in calls and not casts, 'C18-route', '%s(%s) takes its second from split_seconds' % (nm.split('::')[-1], ','.join(targs)[:60]), f,
+            via = 'split_seconds' in calls or (nm == 'cctz::convert' and 'lookup' in calls)
+            ctx.check(via and not casts, 'C18-route', '%s(%s) takes its second from split_seconds' % (nm.split('::')[-1], ','.join(targs)[:60]), f,
                       'a templated entry point converts the time point to seconds itself (%s) instead of through split_seconds: '
                       'the floor correction is bypassed' % (casts or 'no split_seconds call'), construct='route:%s' % nm.split('::')[-1])
         if nm == 'cctz::parse' and _is_template_inst(f):
@@ -243,7 +252,7 @@ def run(ctx):
             bad = []
             for r in rend:
                 flat = re.sub(r'\[[^\]]*\]', '[]', r)
-                if re.search(r' [+-] ', flat) or re.search(r'\b(l?l?round|ceil|nearbyint|rint)\(', flat):
+                if re.search(r'[+-]', flat) or re.search(r'\b(l?l?round|ceil|nearbyint|rint)\(', flat):
                     bad.append(r)
             ctx.check(not bad and val is not None, 'C18-trunc', 'fraction digits at %s: femtoseconds scaled by a power of ten only' % pos(x), x,
                       'the value rendered as fractional digits is %s: an additive term rounds the fraction instead of truncating it'
